@@ -70,7 +70,13 @@ pub fn run(args: &Args) -> i32 {
             let (ia, ib) = (Id::from(a), Id::from(b));
             let t = rng.id();
             let it = Id::from(t);
-            let e = json!({"op":"distance","a":arr(&a),"b":arr(&b),"obs":ia.distance(&ib),"obs_rev":ib.distance(&ia)});
+            let d1 = std::panic::catch_unwind(|| ia.distance(&ib));
+            let d2 = std::panic::catch_unwind(|| ib.distance(&ia));
+            if d1.is_err() || d2.is_err() {
+                out.line(&json!({"op":"distance","a":arr(&a),"b":arr(&b),"obs":-1,"obs_rev":-1,"panic":true}));
+                continue;
+            }
+            let e = json!({"op":"distance","a":arr(&a),"b":arr(&b),"obs":d1.unwrap_or(0),"obs_rev":d2.unwrap_or(0),"panic":false});
             if samples.len() < 2 {
                 samples.push(e.clone());
             }
@@ -81,7 +87,8 @@ pub fn run(args: &Args) -> i32 {
                 std::cmp::Ordering::Greater => 1,
             };
             out.line(&json!({"op":"xorcmp","a":arr(&a),"b":arr(&b),"t":arr(&t),"obs":cmp,
-                "da":ia.distance(&it),"db":ib.distance(&it)}));
+                "da":std::panic::catch_unwind(|| ia.distance(&it)).map(|x| x as i64).unwrap_or(-1),
+                "db":std::panic::catch_unwind(|| ib.distance(&it)).map(|x| x as i64).unwrap_or(-1)}));
             distinct += 2;
         }
     }
